@@ -166,14 +166,36 @@ class Interp:
         return {'Size4KiB': 12, 'Size2MiB': 21, 'Size1GiB': 30}.get(n)
 
     def flags_all(self, tyname):
+        """`T::all().bits()` of a bitflags type: the OR of its flag table `<T as bitflags::Flags>::FLAGS` (which also holds
+        unnamed `const _ = ..` entries); when the table was not extracted, the OR of the named associated constants"""
         if tyname not in self._flags_all:
-            v = 0
-            for c in self.consts.values():
-                if c['ty'].get('k') == 'adt' and c['ty']['name'] == tyname and c['val'].startswith('Scalar(') \
-                        and c.get('impl') and c['impl']['self'] == tyname and not c['impl'].get('trait'):
-                    v |= int(c['val'][7:-1], 16)
+            tbl = self.flag_table(tyname)
+            if tbl is not None:
+                v = 0
+                for e in tbl:
+                    v |= int(e['value'], 16)
+            else:
+                v = 0
+                for c in self.consts.values():
+                    if c['ty'].get('k') == 'adt' and c['ty']['name'] == tyname and c['val'].startswith('Scalar(') \
+                            and c.get('impl') and c['impl']['self'] == tyname and not c['impl'].get('trait'):
+                        v |= int(c['val'][7:-1], 16)
             self._flags_all[tyname] = v
         return self._flags_all[tyname]
+
+    def flag_table(self, tyname):
+        c = self.consts.get('<%s as bitflags::Flags>::FLAGS' % tyname)
+        if c is None:
+            return None
+        return c.get('flags')
+
+    def flags_named_or(self, tyname):
+        v = 0
+        for c in self.consts.values():
+            if c['ty'].get('k') == 'adt' and c['ty']['name'] == tyname and c['val'].startswith('Scalar(') \
+                    and c.get('impl') and c['impl']['self'] == tyname and not c['impl'].get('trait'):
+                v |= int(c['val'][7:-1], 16)
+        return v
 
     # ------------------------------------------------------------------ symbolic values
     def fresh(self, tag):
@@ -1457,7 +1479,10 @@ class Interp:
                 o.frame = self.last_top_frame
         return outs
 
+    TOUCHED = set()      # names of every function body entered by any interpreter of this process (coverage accounting)
+
     def run_fn(self, f, args, st, sub=None, consts=None, keep_locals=False):
+        Interp.TOUCHED.add(f['name'])
         self.depth += 1
         if self.depth > self.max_depth:
             self.depth -= 1
@@ -1488,6 +1513,7 @@ class Interp:
         The frame's locals are kept (o.frame); passing the `fid` of an earlier segment continues in that frame
         (its locals are whatever `st` holds for it)."""
         self.depth += 1
+        Interp.TOUCHED.add(f['name'])
         if fid is None:
             fid = next(self.counter)
         fr = Interp.Frame(fid, f, sub or {}, consts, stop=frozenset(stop))
